@@ -57,6 +57,7 @@ type frame struct {
 	out         map[*ssa.BasicBlock]*state
 	conds       map[*ssa.BasicBlock]string
 	rets        []retInfo
+	loopHeadState map[*Loop]*state
 	debug       []dbgRef
 	caller      *frame
 	inputs      []string // names of input constants (for models)
